@@ -4228,3 +4228,89 @@ func ancVisitedEdges(walk *ssa.Function) map[bedge]bool {
 	}
 	return out
 }
+
+// SCHED-AGREE (C01): `scheduled` means the same everywhere.
+func ruleSchedAgree(w *World, r *Report) {
+	r.Rule("SCHED-AGREE", "premise: core.RuleFromJSON takes an empty `schedule` for no schedule (it compares Rule.Schedule with the empty string; checked).  Conclusion: every function of core and cron that looks up the key \"schedule\" in a rule's map representation either compares the value it finds with the empty string itself, or only hands the value back to callers.  A site that decides on the mere presence of the key disagrees with the parser: IndexedState.add then keeps a rule `{schedule:\"\", when:...}` out of the pattern index, and the rule is stored, listed and never dispatched (while LinearState dispatches it)", 2)
+	rfj := w.Func("core", "RuleFromJSON")
+	isEmptyStr := func(v ssa.Value) bool { s, ok := constString(v); return ok && s == "" }
+	premise := false
+	allInstrs(rfj, func(in ssa.Instruction) {
+		if b, ok := in.(*ssa.BinOp); ok && (b.Op == token.EQL || b.Op == token.NEQ) && (isEmptyStr(b.X) || isEmptyStr(b.Y)) {
+			other := b.X
+			if isEmptyStr(b.X) {
+				other = b.Y
+			}
+			if dependsOn(other, func(v ssa.Value) bool {
+				n, f, _, ok := loadedField(v)
+				return ok && typeKey(n) == "core.Rule" && f == "Schedule"
+			}) {
+				premise = true
+			}
+		}
+	})
+	if !premise {
+		r.exempt("SCHED-AGREE", "premise", w.Pos(rfj.Pos()), "premise fails: RuleFromJSON does not compare Rule.Schedule with the empty string; nothing to agree with")
+		return
+	}
+	n := 0
+	for _, fn := range w.Funcs {
+		rel := w.RelPkg(fn)
+		if (rel != "core" && rel != "cron") || isTestFile(w, fn) {
+			continue
+		}
+		var lookups []*ssa.Lookup
+		allInstrs(fn, func(in ssa.Instruction) {
+			if lk, ok := in.(*ssa.Lookup); ok {
+				if k, isC := constString(lk.Index); isC && k == "schedule" {
+					if _, isMap := lk.X.Type().Underlying().(*types.Map); isMap {
+						lookups = append(lookups, lk)
+					}
+				}
+			}
+		})
+		for _, lk := range lookups {
+			n++
+			key := "fn=" + fname(fn) + " lookup=schedule"
+			if len(lookups) > 1 {
+				key += "#" + itoa(len(lookups)-len(lookups[indexOfLookup(lookups, lk):])+1)
+			}
+			fromLk := func(v ssa.Value) bool { return v == ssa.Value(lk) }
+			compares, returns := false, false
+			allInstrs(fn, func(in ssa.Instruction) {
+				switch t := in.(type) {
+				case *ssa.BinOp:
+					if (t.Op == token.EQL || t.Op == token.NEQ) && ((isEmptyStr(t.X) && dependsOn(t.Y, fromLk)) || (isEmptyStr(t.Y) && dependsOn(t.X, fromLk))) {
+						compares = true
+					}
+				case *ssa.Return:
+					for _, res := range t.Results {
+						if _, isStr := res.Type().Underlying().(*types.Basic); isStr && dependsOn(res, fromLk) && res.Type().Underlying().(*types.Basic).Kind() == types.String {
+							returns = true
+						}
+					}
+				}
+			})
+			switch {
+			case compares:
+				r.ok("SCHED-AGREE", key, w.PosOf(lk), "compares the schedule it finds with the empty string")
+			case returns:
+				r.ok("SCHED-AGREE", key, w.PosOf(lk), "hands the schedule string to its callers")
+			default:
+				r.violation("SCHED-AGREE", key, w.PosOf(lk), "decides on the presence of the `schedule` key only: an empty schedule counts as scheduled here and as not scheduled for the parser")
+			}
+		}
+	}
+	if n == 0 {
+		r.exempt("SCHED-AGREE", "lookup=schedule", "", "no function looks up the key \"schedule\": shape not recognised, not decided")
+	}
+}
+
+func indexOfLookup(ls []*ssa.Lookup, l *ssa.Lookup) int {
+	for i, x := range ls {
+		if x == l {
+			return i
+		}
+	}
+	return 0
+}
